@@ -18,6 +18,7 @@ RULE = ("programs: IOS ACLs (flat / grouped by remark prefix), stand-alone AceGr
         "original, the (source x destination) operand product complete and without duplicates, union == "
         "original; entries needing no split keep their identifier and text; first-match equivalence is "
         "cross-checked by boundary packet sampling. Non-trivial: at least one entry was split")
+RULE += ". Directed classes added after the seeded-change rounds: twins of split results and twins that differ in options only; 17-bit wildcards under a raised limit; a second split of the same object after an in-place append; a plain entry appended after the blocks"
 ASSUMPTIONS = ["refsem packet semantics", "order inside a run is not constrained by the property",
                "split entries may share the original sequence number"]
 
